@@ -127,6 +127,8 @@ def program(draw, nmax=8, kinds=('call', 'await', 'map', 'amap', 'wait'), immedi
         # the foreign submitters are plain threads (no running loop of their own), possibly with the buffer's loop set as
         # their current loop
         out['foreign_mode'] = draw(st.sampled_from(['plain', 'plain-setloop']))
+    if draw(st.integers(0, 7)) == 0:
+        out['func_attrs'] = True      # the wrapped function carries attributes of its own (one of them is called 'timeout')
     if draw(st.integers(0, 3)) == 0:
         out['mixed_args'] = True      # arguments of mixed, mutually unorderable types ('range' iterables stay ints)
     if not shutdown and draw(st.integers(0, 4)) == 0:
